@@ -844,7 +844,22 @@ func (c *specCtx) bodyCtx(sf *SpecFunc, vals []Val) *specCtx {
 
 func (c *specCtx) applySpecVals(sf *SpecFunc, vals []Val) Val {
 	if !sf.Rec {
-		return c.bodyCtx(sf, vals).eval(sf.Body)
+		v := c.bodyCtx(sf, vals).eval(sf.Body)
+		// name large ground integer results (let-naming): keeps offsets small and syntactically shared
+		if iv, ok := v.(VInt); ok && !iv.T.IsConst() && iv.T.Op != "var" && len(iv.T.Key()) > 160 && !hasBound([]*Term{iv.T}, c.bound) && !c.noUnfold {
+			k := "name:" + iv.T.Key()
+			if c.e.named == nil {
+				c.e.named = map[string]*Term{}
+			}
+			nm, ok := c.e.named[k]
+			if !ok {
+				nm = c.e.fresh("sv$"+sf.Name, IntS)
+				c.e.named[k] = nm
+			}
+			c.st.assume(Eq(nm, iv.T))
+			return VInt{nm}
+		}
+		return v
 	}
 	ri := c.e.specUF[sf.Name]
 	if ri == nil {
